@@ -117,6 +117,29 @@ pub fn issuers() -> Issuers {
         list.push(mk_issuer(&DnSpec::cn("crl issuer"), &KeyIdSpec::Pre(vec![1, 2, 3]), &[], alg));
         labels.push(format!("alg={}", alg.name()));
     }
+    // issuers that themselves carry what a revocation list can carry: distribution points with the very URIs of the
+    // lists' issuing distribution points, and an own issuing-style name. An equal value on the issuer's certificate
+    // must not change what the list says.
+    for (l, dps) in [
+        ("the first idp URI", vec![vec!["http://crl.example/a".to_string()]]),
+        ("both idp URIs in one point", vec![vec!["http://crl.example/a".to_string(), "ldap://x.example/b".to_string()]]),
+        ("both idp URIs in two points", vec![vec!["ldap://x.example/b".to_string()], vec!["http://crl.example/a".to_string()]]),
+    ] {
+        let alg = Alg::Ed25519;
+        let raw = fake_pub(alg, 0x33);
+        let (kp, _log) = stub_key(alg, &raw);
+        let dn = DnSpec::cn("crl issuer");
+        let mut st = crate::glue::base_cert_state();
+        st.dn = dn.clone();
+        st.key_id = KeyIdSpec::Sha256;
+        st.is_ca = IsCaSpec::Unconstrained;
+        st.crl_dps = dps;
+        st.not_before = TimeSpec::ymdhms(2001, 2, 3, 4, 5, 6);
+        st.not_after = TimeSpec::ymdhms(2061, 7, 8, 9, 10, 11);
+        let cert = crate::glue::to_params(&st).expect("issuer params").self_signed(&kp).expect("issuer with distribution points");
+        list.push(IssuerReal { spec: IssuerSpec { dn, key_id: KeyIdSpec::Sha256, key: KeyPub { alg, raw }, key_usages: vec![] }, cert, key: kp });
+        labels.push(format!("cdp={}", l));
+    }
     // issuers whose Certificate object came into being in another way than self-signing: an intermediate issued by a
     // root, a certificate issued from a parsed request, and a CA re-created from an import. The CRL must name and
     // identify them exactly as it does a self-signed issuer with the same name, key and key usages.
@@ -357,7 +380,7 @@ pub fn add_sections(rep: &mut Report, prop: &str, thorough: bool, conformant_onl
     let space = crl_space(&iss, conformant_only);
     let cap = if thorough { 1100 } else { 50 };
     {
-        let sec = Section::new("crl/levels", "all CRL states with exactly k non-default dimensions (updates 399, crl_number 9, idp 9, revoked 11, key_id 5, issuer 26)").with_deadline(cap);
+        let sec = Section::new("crl/levels", "all CRL states with exactly k non-default dimensions (updates 399, crl_number 9, idp 9, revoked 11, key_id 5, issuer 29)").with_deadline(cap);
         run::levels(&sec, &space, if thorough { 5 } else { 3 }, &|c, _| judge(prop, &known, c, &iss, true));
         rep.add(sec);
     }
@@ -438,16 +461,35 @@ pub fn add_sections(rep: &mut Report, prop: &str, thorough: bool, conformant_onl
     }
     {
         // all 512 issuer key-usage subsets x 3 update orderings
+        // ... x what the issuer's certificate says about being a CA (the rule about declared key usages does not depend on it)
+        let roles = [IsCaSpec::Unconstrained, IsCaSpec::NoCa, IsCaSpec::ExplicitNoCa, IsCaSpec::Constrained(0)];
         let mut cases: Vec<(u16, usize)> = Vec::new();
-        for m in 0..512u16 {
+        for m in 0..(512u16 * roles.len() as u16) {
             for o in 0..3 {
                 cases.push((m, o));
             }
         }
-        let issuers512: Vec<IssuerReal> = (0..512u16).map(|m| mk_issuer(&DnSpec::cn("ku issuer"), &KeyIdSpec::Sha256, &(0..9u8).filter(|i| m >> i & 1 == 1).collect::<Vec<_>>(), Alg::Ed25519)).collect();
+        let issuers512: Vec<IssuerReal> = (0..(512u16 * roles.len() as u16))
+            .map(|m| {
+                let ku: Vec<u8> = (0..9u8).filter(|i| m >> i & 1 == 1).collect();
+                let alg = Alg::Ed25519;
+                let raw = fake_pub(alg, 0x33);
+                let (kp, _log) = stub_key(alg, &raw);
+                let dn = DnSpec::cn("ku issuer");
+                let mut ist = crate::glue::base_cert_state();
+                ist.dn = dn.clone();
+                ist.key_id = KeyIdSpec::Sha256;
+                ist.key_usages = ku.clone();
+                ist.is_ca = roles[(m >> 9) as usize];
+                ist.not_before = TimeSpec::ymdhms(2001, 2, 3, 4, 5, 6);
+                ist.not_after = TimeSpec::ymdhms(2061, 7, 8, 9, 10, 11);
+                let cert = crate::glue::to_params(&ist).expect("issuer params").self_signed(&kp).expect("issuer");
+                IssuerReal { spec: IssuerSpec { dn, key_id: KeyIdSpec::Sha256, key: KeyPub { alg, raw }, key_usages: ku }, cert, key: kp }
+            })
+            .collect();
         let ins = instants();
-        let sec = Section::new("crl/sweep/issuer-key-usage-512 x updates-3", "every issuer key-usage subset x {next after this, next equal this, next before this}: refusal iff cRLSign is missing from a non-empty set or encoded next <= encoded this");
-        run::sweep_cases(&sec, &cases, &|c| format!("issuer ku={:09b} ordering={}", c.0, c.1), &|c| {
+        let sec = Section::new("crl/sweep/issuer-key-usage-512 x roles-4 x updates-3", "every issuer key-usage subset x {CA, no basic constraints, explicitly no CA, CA with path length 0} x {next after this, next equal this, next before this}: refusal iff cRLSign is missing from a non-empty set or encoded next <= encoded this");
+        run::sweep_cases(&sec, &cases, &|c| format!("issuer ku={:09b} role={:?} ordering={}", c.0 & 511, roles[(c.0 >> 9) as usize], c.1), &|c| {
             let (this, next) = match c.1 {
                 0 => (ins[0].1, ins[11].1),
                 1 => (ins[0].1, ins[0].1),
